@@ -268,6 +268,10 @@ class FnTr:
     def _prescan_alias(self):
         seen = []           # member paths mentioned so far, in source order
         locals_ = set()
+        # member paths that this function overwrites with a local pointer (`obj->f = p;`): a local that was
+        # initialised from such a field BEFORE the store (`T *old = obj->f; obj->f = p; free(old);`) takes the old
+        # block over instead of being another name of the field
+        self.reassigned = set()
 
         def collect_locals(n):
             if isinstance(n, dict):
@@ -287,6 +291,8 @@ class FnTr:
                         and r["referencedDecl"]["name"] in locals_ and l.get("kind") in ("MemberExpr", "ArraySubscriptExpr"):
                     pth = self.path_of(l)
                     nm = r["referencedDecl"]["name"]
+                    if pth is not None:
+                        self.reassigned.add(pth)
                     if pth is not None and "[?]" not in pth and pth not in seen and nm not in self.alias:
                         self.alias[nm] = pth
                     walk(n["inner"][1])
@@ -735,6 +741,14 @@ class FnTr:
                     if pth == self.ret_slot:
                         return [("Ret", "Ok")]
                     return [("Move", self.sc.rid(self.ret_slot), self.sc.rid(pth)), ("Ret", "Ok")]
+                if self.is_acquire(e):
+                    # `return malloc(..);` in a helper: the block goes straight to the caller's destination
+                    r = self.sc.rid(self.ret_slot)
+                    return [("Alloc", r), ("IfNull", [r], [("Ret", "Fail")]), ("Ret", "Ok")]
+                cnp = self.call_name(e)
+                if cnp and cnp != "<indirect>" and self.sc.relevant(cnp) and self.callee_kind(cnp) == "ptr":
+                    body, _ = self.inline(e, self.ret_slot)      # `return other_helper(..);`
+                    return [("Call", body, True, []), ("Ret", None)]
                 self.err("returned pointer cannot be traced to an acquisition", s)
             if self.kind == "bool" and self.ival(e) is None:
                 c = self.cond(e)
@@ -747,6 +761,13 @@ class FnTr:
                     return body + [("Ret", "Fail")]
                 if c[0] == "const":
                     return [("Ret", "Ok" if c[1] else "Fail")]
+            # `return relevant_call(..);` - the callee's result class is the caller's (same return convention only)
+            cnr = self.call_name(e)
+            if cnr and cnr not in ACQUIRE and cnr != "<indirect>" and self.sc.relevant(cnr) and not self.ret_slot:
+                ck = self.callee_kind(cnr)
+                if ck == self.kind and ck in ("int", "bool"):
+                    body, _ = self.inline(e)
+                    return [("Call", body, True, []), ("Ret", None)]
         return [("Ret", self.ret_class(s))]
 
     def ret_class(self, s):
@@ -813,6 +834,13 @@ class FnTr:
             return [], False
         pth = self.path_of(e)
         if pth is not None:
+            if self.sc.known(pth) and pth in getattr(self, "reassigned", ()) and qual.rstrip().endswith("*") \
+                    and name not in self.alias:
+                # `T *old = obj->f;` and obj->f is overwritten with another pointer later: the local takes the
+                # block over (it is what gets released), the field is free for its new value
+                p = self.local_path(name)
+                self.env[name] = ("resvar", p)
+                return [("Move", self.sc.rid(p), self.sc.rid(pth))], False
             if self.sc.known(pth):
                 # local copy of an owned pointer (e.g. FILE *fp = handler->fp): same variable
                 self.env[name] = ("resvar", pth)
